@@ -102,7 +102,19 @@ impl Runner for BashRunner {
         let shell = self.shell.to_owned();
 
         // render the bash script
-        let state_directory_str = self.state_directory.to_string_lossy();
+        // the path stands within double quotes in the template: whatever bash would
+        // expand there (`$`, backticks) or end the quotes with must stay literal
+        let state_directory_str = self
+            .state_directory
+            .to_string_lossy()
+            .chars()
+            .fold(String::new(), |mut escaped, ch| {
+                if matches!(ch, '\\' | '"' | '$' | '`') {
+                    escaped.push('\\');
+                }
+                escaped.push(ch);
+                escaped
+            });
         let expression = BASH_TEMPLATE
             .replace("{state_directory}", &state_directory_str)
             .replace("{name}", name)
